@@ -920,13 +920,13 @@ class C18(Prop):
         env = dict(os.environ, RUST_BACKTRACE="0", NO_COLOR="1")
         if inv["mode"] in ("load", "yrC"):
             pre = subprocess.run(self.save_cmd(case), cwd=d, env=env, stdout=subprocess.PIPE, stderr=subprocess.PIPE,
-                                 timeout=CLI_TIMEOUT)
+                                 timeout=self.cur_limit())
             if pre.returncode != 0:
                 return {"save_failed": pre.returncode, "stdout": pre.stdout.hex(),
                         "stderr": pre.stderr.decode("utf-8", "replace")[-800:]}
         cmd = self.cli_cmd(case)
         try:
-            p = subprocess.run(cmd, cwd=d, env=env, stdout=subprocess.PIPE, stderr=subprocess.PIPE, timeout=CLI_TIMEOUT)
+            p = subprocess.run(cmd, cwd=d, env=env, stdout=subprocess.PIPE, stderr=subprocess.PIPE, timeout=self.cur_limit())
         except subprocess.TimeoutExpired as ex:
             return {"timeout": True, "cmd": cmd[1:], "stdout": (ex.stdout or b"")[-2000:].hex()}
         return {"rc": p.returncode, "stdout": p.stdout.hex(), "stderr": p.stderr.hex(), "cmd": cmd[1:]}
@@ -984,7 +984,7 @@ class C18(Prop):
         env = dict(os.environ, RUST_BACKTRACE="0", NO_COLOR="1")
         if inv["mode"] in ("load", "yrC"):
             pre = subprocess.run(self.save_cmd(case), cwd=d, env=env,
-                                 stdout=subprocess.PIPE, stderr=subprocess.PIPE, timeout=CLI_TIMEOUT)
+                                 stdout=subprocess.PIPE, stderr=subprocess.PIPE, timeout=self.cur_limit())
             if pre.returncode != 0:
                 return {"save_failed": pre.returncode, "stdout": pre.stdout.hex(),
                         "stderr": pre.stderr.decode("utf-8", "replace")[-800:]}
@@ -1007,7 +1007,7 @@ class C18(Prop):
               threading.Thread(target=pump, args=(proc.stderr, "e"), daemon=True)]
         for t in th:
             t.start()
-        deadline = time.time() + CLI_TIMEOUT
+        deadline = time.time() + self.cur_limit()
         held, released, held_counts, order = {}, set(), [], []
         n = max(1, inv["threads"])
         ok = True
@@ -1044,7 +1044,7 @@ class C18(Prop):
             # wait until the expected number of workers is blocked reading; then look once more
             # after a short pause so that *more* concurrent readers than expected would be seen too
             # fewer readers than expected for this long: record what is there (and do not wait again)
-            settle = time.time() + (20 if ok_conc else 0.3)
+            settle = time.time() + (max(20, self.cur_limit() / 3) if ok_conc else 0.3)
             while time.time() < min(deadline, settle) and proc.poll() is None:
                 poll_held()
                 if len(held) >= want:
@@ -1117,7 +1117,7 @@ class C18(Prop):
 
         def run(cmd):
             p = subprocess.run([CLI] + cmd, cwd=d, env=env, stdout=subprocess.PIPE, stderr=subprocess.PIPE,
-                               timeout=CLI_TIMEOUT)
+                               timeout=self.cur_limit())
             return {"rc": p.returncode, "stdout": p.stdout.hex(), "stderr": p.stderr.hex(), "cmd": cmd}
         if case["special"] == "save-twice":
             open(os.path.join(d, "r.yar"), "w").write(case["text"])
@@ -1141,13 +1141,51 @@ class C18(Prop):
                 run(["save", "-f", "r.yar", nm])
         return run(case["cmd"])
 
+    def cur_limit(self):
+        return getattr(self.tl, "limit", CLI_TIMEOUT)
+
     def one(self, ix_case):
-        try:
-            return self.one_inner(ix_case)
-        except Exception as ex:      # a driver failure is reported on its case, with the case as replay
-            import traceback
-            return {"dir": os.path.join(self.base, "%d" % ix_case[0]), "candidates": [],
-                    "cli": {"driver_exception": "%r\n%s" % (ex, traceback.format_exc()[-1500:])}}
+        """One case, with the time limit handled here: a run that exceeds the limit says nothing about the tool on a
+        loaded machine, so it is repeated in a fresh directory with a 4x longer limit (twice).  Only when every attempt
+        times out is the case reported — as a *hang* of that command line, not as an output mismatch.  After the first
+        confirmed hang later time-outs are not retried (a tool that really deadlocks must not cost hours)."""
+        limits = [self.base_limit] if self.hang_confirmed else [self.base_limit, 4 * self.base_limit, 4 * self.base_limit]
+        last_cmd = None
+        for k, lim in enumerate(limits):
+            self.tl.limit = lim
+            self.tl.suffix = "" if k == 0 else "_retry%d" % k
+            try:
+                res = self.one_inner(ix_case)
+            except subprocess.TimeoutExpired as ex:
+                last_cmd = list(ex.cmd)[1:] if isinstance(ex.cmd, (list, tuple)) else str(ex.cmd)
+                continue
+            except Exception as ex:      # a driver failure is reported on its case, with the case as replay
+                import traceback
+                return {"dir": os.path.join(self.base, "%d" % ix_case[0]), "candidates": [],
+                        "cli": {"driver_exception": "%r\n%s" % (ex, traceback.format_exc()[-1500:])}}
+            if res["cli"].get("timeout"):
+                last_cmd = res["cli"].get("cmd")
+                continue
+            if k > 0:
+                res["cli"]["retries"] = k
+                self.retried += 1
+            return res
+        self.hang_confirmed = True
+        return {"dir": os.path.join(self.base, "%d" % ix_case[0]), "candidates": [],
+                "cli": {"hang": True, "cmd": last_cmd, "limits_s": limits,
+                        "what": "the executable did not terminate within any of these limits on this command line"}}
+
+    def calibrate(self):
+        """time limit from the machine's present speed: the slowest of three trivial invocations, x400, at least 60 s"""
+        worst = 0.0
+        for _ in range(3):
+            t = time.time()
+            try:
+                subprocess.run([CLI, "list-modules"], stdout=subprocess.PIPE, stderr=subprocess.PIPE, timeout=300)
+            except Exception:
+                pass
+            worst = max(worst, time.time() - t)
+        return min(600.0, max(float(CLI_TIMEOUT), 400.0 * worst)), worst
 
     def pipes_readable(self):
         """capability check, once per round: does the tool read a named pipe given as a scan-list entry to end of
@@ -1183,7 +1221,7 @@ class C18(Prop):
 
     def one_inner(self, ix_case):
         ix, case = ix_case
-        d = os.path.join(self.base, "%d" % ix)
+        d = os.path.join(self.base, "%d%s" % (ix, getattr(self.tl, "suffix", "")))
         if "special" in case:
             return {"dir": d, "cli": self.run_special(d, case), "candidates": []}
         self.materialise(d, case)
@@ -1237,6 +1275,14 @@ class C18(Prop):
         ctx.workdirs = getattr(ctx, "workdirs", []) + [self.base]
         shutil.rmtree(self.base, ignore_errors=True)
         os.makedirs(self.base)
+        self.tl = threading.local()
+        self.retried = 0
+        self.hang_confirmed = False
+        self.base_limit, cal = self.calibrate()
+        if os.environ.get("C18_BASE_LIMIT"):          # test hook for the retry / hang path only
+            self.base_limit = float(os.environ["C18_BASE_LIMIT"])
+        if self.base_limit > CLI_TIMEOUT:
+            ctx.notes.append("loaded machine: a trivial invocation took %.2fs, time limit per invocation %.0fs" % (cal, self.base_limit))
         self.probes_enabled = True
         if any("inv" in c and "probe" in c["inv"] for c in cases):
             try:
@@ -1248,6 +1294,9 @@ class C18(Prop):
                 ctx.notes.append("controlled-schedule probes skipped: the tool does not read a named pipe to end of file")
         with ThreadPoolExecutor(max_workers=6) as ex:
             pre = list(ex.map(self.one, list(enumerate(cases))))
+        if self.retried:
+            ctx.notes.append("%d invocation(s) exceeded the time limit once and were repeated (load)" % self.retried)
+            ctx.count("repeated-after-timeout", self.retried)
         hc = []
         for case, r in zip(cases, pre):
             if "special" in case:
@@ -1422,7 +1471,7 @@ class C18(Prop):
         cli, lib = out["cli"], out["lib"]
         if "inconclusive" in cli:
             return (True, True, 0)          # schedule probe not applicable to this build of the tool; counted
-        if "driver_exception" in cli:
+        if "driver_exception" in cli or "hang" in cli:
             return (False, False, 0)
         if "special" in case:
             if not isinstance(lib, dict) or "modules" not in lib or "rc" not in cli:
